@@ -10,7 +10,9 @@
   A row `op%kind` overrides `op` for one container kind (lazy stacks: key access *stacks*, i.e.
   copies, as documented in tensordict/_lazy.py:LazyStackedTensorDict; sub-tensordicts: `set`/`update`
   write through the window into the source for existing keys and allocate a source-sized entry for
-  new ones, tensordict/_td.py:_SubTensorDict._set_str — neither class, hence `excluded`).
+  new ones, tensordict/_td.py:_SubTensorDict._set_str — neither class, hence `excluded`;
+  TensorDictParams: tensordict/nn/params.py:load_state_dict always calls `self.data.load_state_dict(..., assign=False)`,
+  i.e. copies in place whatever `assign` says).
 
   The harness re-reads the public API of `TensorDict` by reflection on every run: a public name that
   has no row here is a broken correspondence (`c07.class` answers `unknown`).
@@ -22,18 +24,18 @@ import TdVerif.Model.C07Storage
 namespace TdVerif.C07
 
 def classTable : List (String × OpClass) := [
-  -- inplace (63)
+  -- inplace (64)
   ("__iadd__", .inplace), ("__imul__", .inplace), ("__ipow__", .inplace), ("__isub__", .inplace), ("__itruediv__", .inplace), ("__setitem__/index", .inplace),
   ("abs_", .inplace), ("acos_", .inplace), ("add_", .inplace), ("addcdiv_", .inplace), ("addcmul_", .inplace), ("apply/inplace", .inplace),
   ("apply_", .inplace), ("asin_", .inplace), ("atan_", .inplace), ("ceil_", .inplace), ("clamp_max_", .inplace), ("clamp_min_", .inplace),
   ("copy_", .inplace), ("copy_at_", .inplace), ("cos_", .inplace), ("cosh_", .inplace), ("detach_", .inplace), ("div_", .inplace),
   ("erf_", .inplace), ("erfc_", .inplace), ("exp_", .inplace), ("expm1_", .inplace), ("fill_", .inplace), ("floor_", .inplace),
-  ("frac_", .inplace), ("lerp_", .inplace), ("lgamma_", .inplace), ("load_state_dict", .inplace), ("log10_", .inplace), ("log1p_", .inplace),
-  ("log2_", .inplace), ("log_", .inplace), ("masked_fill_", .inplace), ("maximum_", .inplace), ("minimum_", .inplace), ("mul_", .inplace),
-  ("named_apply/inplace", .inplace), ("neg_", .inplace), ("pow_", .inplace), ("reciprocal_", .inplace), ("round_", .inplace), ("set/inplace", .inplace),
-  ("set_", .inplace), ("set_at_", .inplace), ("sigmoid_", .inplace), ("sign_", .inplace), ("sin_", .inplace), ("sinh_", .inplace),
-  ("sqrt_", .inplace), ("sub_", .inplace), ("tan_", .inplace), ("tanh_", .inplace), ("trunc_", .inplace), ("update/inplace", .inplace),
-  ("update_", .inplace), ("update_at_", .inplace), ("zero_", .inplace),
+  ("frac_", .inplace), ("lerp_", .inplace), ("lgamma_", .inplace), ("load_state_dict", .inplace), ("load_state_dict/assign%params", .inplace), ("log10_", .inplace),
+  ("log1p_", .inplace), ("log2_", .inplace), ("log_", .inplace), ("masked_fill_", .inplace), ("maximum_", .inplace), ("minimum_", .inplace),
+  ("mul_", .inplace), ("named_apply/inplace", .inplace), ("neg_", .inplace), ("pow_", .inplace), ("reciprocal_", .inplace), ("round_", .inplace),
+  ("set/inplace", .inplace), ("set_", .inplace), ("set_at_", .inplace), ("sigmoid_", .inplace), ("sign_", .inplace), ("sin_", .inplace),
+  ("sinh_", .inplace), ("sqrt_", .inplace), ("sub_", .inplace), ("tan_", .inplace), ("tanh_", .inplace), ("trunc_", .inplace),
+  ("update/inplace", .inplace), ("update_", .inplace), ("update_at_", .inplace), ("zero_", .inplace),
   -- outOfPlace (160)
   ("__abs__", .outOfPlace), ("__add__", .outOfPlace), ("__and__", .outOfPlace), ("__eq__", .outOfPlace), ("__ge__", .outOfPlace), ("__getitem__/key%lazy", .outOfPlace),
   ("__gt__", .outOfPlace), ("__invert__", .outOfPlace), ("__le__", .outOfPlace), ("__lt__", .outOfPlace), ("__mul__", .outOfPlace), ("__ne__", .outOfPlace),
@@ -101,7 +103,7 @@ def classTable : List (String × OpClass) := [
 def classOf (op : String) : Option OpClass := classTable.lookup op
 
 /-- container kinds of the property's quantifier -/
-def kinds : List String := ["regular", "nested", "lazy", "sub", "tensorclass", "memmap", "shared"]
+def kinds : List String := ["regular", "nested", "lazy", "sub", "tensorclass", "memmap", "shared", "params"]
 
 /-- Rows where the code that exists does NOT behave as the class the property assigns (known
 findings, see known_findings.json): the model transcribes the code, the oracle keeps the property's class.
